@@ -329,7 +329,9 @@ func (t *threadSafeList[T]) Init() List[T] {
 	t.mutex.Lock()
 	defer t.mutex.Unlock()
 
-	return t.list.Init()
+	t.list.Init()
+
+	return t
 }
 
 // Front returns the first element of the List or nil if it is empty.
